@@ -289,6 +289,49 @@ func TestC04(t *testing.T) {
 			gen.Exhaustive("small-scope abstraction: <=2 platform levels x 11 comparison shapes x 7 statuses (no module); module branch: 6 shapes x statuses x identity absent / <=2 module levels x {below,equal,above} x 7 statuses", true)
 		})
 	}
+	// the status that accepts is spelled UpToDate: the level that decides carries a near miss of it (another letter
+	// case, a blank, a look-alike letter) - the quote is not accepted, whether the document is refused or the level
+	// counts as not up to date
+	gen.Direct(t, "status-spellings", func(t *testing.T) {
+		i := 0
+		for _, sp := range statusNearMisses {
+			for _, where := range []string{"platform", "module"} {
+				i++
+				if !gen.ShardOwns(i) {
+					continue
+				}
+				w := gen.NewWorld(gen.NewPKI(gen.PKISpec{Seed: gen.PKISeeds[i%len(gen.PKISeeds)]}), gen.NewStream(gen.Seed()+uint64(i), "c04status"))
+				if where == "module" {
+					w.Q.TeeTcbSvn[1] = 1
+				}
+				w.HonestCollateral()
+				if where == "platform" {
+					for k := range w.TcbInfo.Levels {
+						w.TcbInfo.Levels[k].Status = sp
+					}
+				} else {
+					if len(w.TcbInfo.Identities) == 0 {
+						continue
+					}
+					for a := range w.TcbInfo.Identities {
+						for b := range w.TcbInfo.Identities[a].Levels {
+							w.TcbInfo.Identities[a].Levels[b].Status = sp
+						}
+					}
+				}
+				w.Build()
+				o := w.Options(gen.LvlColl, w.NewGetter(), nil)
+				gen.Eval()
+				v := gen.Call(func() error { return verify.RawTdxQuote(w.Raw, o) })
+				if v.Panicked() || v.Accepted() {
+					gen.Fail(t, gen.Violation{Key: "accepts-bad-tcb:status-near-miss:" + where, Oracle: "accepted only if identity fields match and the selected platform (and module) level is UpToDate", Detail: fmt.Sprintf("every %s level carries tcbStatus %q: %s", where, sp, v), Replay: w.CaseFile(gen.LvlColl, nil, nil, nil, "reject")})
+					return
+				}
+				gen.NonTrivial("c04status", sp, where)
+			}
+		}
+		gen.Class("status-spellings")
+	})
 	gen.Prop(t, "abstraction-sampled", gen.N(5000, 20000), func(t *rapid.T) {
 		c := absCase{mv: rapid.SampledFrom([]byte{0, 0, 1, 1, 2, 10, 16, 171}).Draw(t, "mv")}
 		for i, n := 0, rapid.IntRange(1, 2).Draw(t, "levels"); i < n; i++ {
@@ -793,3 +836,6 @@ func nthIndex(s, sub string, n int) int {
 		off += j + len(sub)
 	}
 }
+
+// statusNearMisses are strings that are not the status "UpToDate".
+var statusNearMisses = []string{"uptodate", "UPTODATE", "Uptodate", "upToDate", "UpToDate ", " UpToDate", "UpToDate\t", "Up To Date", "UpToDate;", "UpT\u043eDate", "UpToDat\u0435", "\uff35pToDate", "UpToDate\u0000", "UpToDate,OutOfDate", "up_to_date", "Up-To-Date"}
